@@ -5440,3 +5440,12 @@ M('C05', 'verify-verdict-cache-by-signature-value', PGP, "                if iss
 M('C05', 'verify-verdict-ok-without-hash-for-own-key', PGP, "                if issues and issues.causes_signature_verify_to_fail:\n                    sigv.add_sigsubj(sig, self, subj, issues)\n                else:\n",
   "                if issues and issues.causes_signature_verify_to_fail:\n                    sigv.add_sigsubj(sig, self, subj, issues)\n                elif subj is self and sig.signer == self.fingerprint.keyid and self._self_verified:\n                    sigv.add_sigsubj(sig, self, subj, SecurityIssues.OK)\n                else:\n", 'C05.4')
 T('C05', 'twin-verify-hashdata-temp', PGP, "                    verified = self._key.verify(sig.hashdata(subj), sig.__sig__, getattr(hashes, sig.hash_algorithm.name)())", "                    tbs = sig.hashdata(subj)\n                    hash_object = getattr(hashes, sig.hash_algorithm.name)()\n                    verified = self._key.verify(tbs, sig.__sig__, hash_object)")
+
+# ---- wave 7 (w7fix-C): the group key kept in a `nonlocal` variable of a factory closure instead of an instance attribute
+_GRP_CLS = "            class PktGrouper(object):\n                def __init__(self):\n                    self.last = None\n\n                def __call__(self, pkt):\n" + GROUPER + "            return PktGrouper()\n"
+_GRP_NL = "            last = None\n\n            def grouper(pkt):\n                nonlocal last\n                if %s:\n                    last = %s\n                return last\n            return grouper\n"
+_GRP_KEY = "'{:02X}_{:s}'.format(id(pkt), pkt.__class__.__name__)"
+T('C14', 'twin-grouper-nonlocal', PGP, _GRP_CLS, _GRP_NL % ("pkt.header.tag != PacketTag.Signature", _GRP_KEY))
+M('C14', 'grouper-nonlocal-splits-on-signatures', PGP, _GRP_CLS, _GRP_NL % ("pkt.header.tag != PacketTag.Trust", _GRP_KEY), 'C14.3')
+M('C14', 'grouper-nonlocal-key-not-unique', PGP, _GRP_CLS, _GRP_NL % ("pkt.header.tag != PacketTag.Signature", "pkt.__class__.__name__"), 'C14.3')
+M('C14', 'grouper-nonlocal-forgotten', PGP, _GRP_CLS, (_GRP_NL % ("pkt.header.tag != PacketTag.Signature", _GRP_KEY)).replace("                nonlocal last\n", "                last = None\n"), 'C14.3')
